@@ -348,10 +348,16 @@ def srs_fn(N, Hc, freqs, combos):
             info = dict(kind="srs", N=N, H=Hc, freqs=list(freqs), stype=stype, ic=ic, getresp=getresp, time=timeopt, oneD=oneD)
             sig = sigarr(N, Hc, oneD)
             kw = dict(ic=ic, stype=stype, peak=peakfunc, time=timeopt, rolloff="none", getresp=getresp)
-            Sched.watched, Sched.log, Sched.order = {}, [], []
-            ser = g["srs"](sig, 1000.0, np.array(freqs), 10, parallel="no", **kw)
-            Sched.watched, Sched.log, Sched.order = {}, [], []
-            par = g["srs"](sig, 1000.0, np.array(freqs), 10, parallel="yes", maxcpu=3, **kw)
+            try:
+                Sched.watched, Sched.log, Sched.order = {}, [], []
+                ser = g["srs"](sig, 1000.0, np.array(freqs), 10, parallel="no", **kw)
+                Sched.watched, Sched.log, Sched.order = {}, [], []
+                par = g["srs"](sig, 1000.0, np.array(freqs), 10, parallel="yes", maxcpu=3, **kw)
+            except E.Inconclusive:
+                raise
+            except Exception as ex:
+                obls.append(E.Obl("srs leaves the uninterpreted domain: %r" % (ex,), False, info=info))
+                continue
             if Sched.order != sorted(Sched.order):
                 eng.tag("order-nonidentity")
             eng.tag("srs-ic" if (ic == "steady" and stype not in ("relacce", "relvelo")) else "srs-noic")
@@ -438,7 +444,14 @@ def fde_fn(N, freqs, nbins):
         out = {}
         for par in ("no", "yes"):
             Sched.watched, Sched.log, Sched.order = {}, [], []
-            out[par] = section(par, 3, Wn, sig, LF, nbins, srsm.absacce, 10, 0.001, False, np.pi)
+            try:
+                out[par] = section(par, 3, Wn, sig, LF, nbins, srsm.absacce, 10, 0.001, False, np.pi)
+            except E.Inconclusive:
+                raise
+            except Exception as ex:
+                # the two settings no longer run the same operations on the uninterpreted
+                # values: a candidate difference, decided by the replay with real processes
+                return [E.Obl("fdepsd section (parallel=%r) leaves the uninterpreted domain: %r" % (par, ex), False, info=info)]
         eng.tag("fdepsd")
         if Sched.order != sorted(Sched.order):
             eng.tag("order-nonidentity")
@@ -463,13 +476,15 @@ def replay(p):
     rng = np.random.RandomState(7)
     if info.get("kind") == "fdepsd":
         import pyyeti.fdepsd as fd
-        sig = np.sin(np.arange(4000) * 0.07) * rng.rand(4000) * 5
-        # ties on bin edges: repeated bursts at 1x, 2x, 4x scale
-        base = rng.randn(300)
-        sig = np.r_[base, np.zeros(200), 2 * base, np.zeros(200), 4 * base, np.zeros(200)]
-        kw = dict(hpfilter=None, winends=None, detrend=False, nbins=8, rolloff="none", ppc=2)
-        a = fd.fdepsd(sig, 1000.0, np.array([20.0, 35.0, 50.0]), 10, parallel="no", **kw)
-        b = fd.fdepsd(sig, 1000.0, np.array([20.0, 35.0, 50.0]), 10, parallel="yes", maxcpu=2, **kw)
+        # exact ties on bin edges: one burst repeated at 1x, 2x, 4x scale (exact in floating
+        # point) separated by gaps long enough for the response to die out completely
+        base = rng.randn(400)
+        gap = np.zeros(20000)
+        sig = np.r_[base, gap, 2 * base, gap, 4 * base, np.zeros(300)]
+        kw = dict(hpfilter=None, winends=None, detrend=False, nbins=8, rolloff=None)
+        fq = np.array([20.0, 27.0, 35.0, 41.0, 50.0])
+        a = fd.fdepsd(sig, 500.0, fq, 10, parallel="no", **kw)
+        b = fd.fdepsd(sig, 500.0, fq, 10, parallel="yes", maxcpu=2, **kw)
         bad = [k for k in ("count", "bincount", "binamps", "srs", "var", "psd", "peakamp", "di_sig") if not np.array_equal(np.asarray(getattr(a, k)), np.asarray(getattr(b, k)), equal_nan=True)]
         if bad:
             return True, "fdepsd(parallel='yes') differs from parallel='no' in %s" % bad
